@@ -281,3 +281,85 @@ def d5(cx: Cx, ob: Ob) -> None:
                 if g.kind == "guard" and g.b is True and _consults_owner_of(g.a, new, conv):
                     if rec is not None and not any(x == rec for x in subterms(g.a)):
                         ob.violate(fn.qualname, where(fn, g.line), "the clash test does not exempt the record's own names: remapping onto an existing synonym of the same record is skipped", detail="clash-own-synonym")
+
+
+@obligation("C11-D6", "application order: _order_curie_remapping raises its four documented errors and returns either the plain items (keys and values disjoint) or the layer-by-layer peeling of the remapping graph - each round emits exactly the pairs whose new prefix has no outgoing pair left, removes them, and the accumulated list is returned as built (a re-sort puts a->b before b->c and the second pair is skipped as a clash)", floor=3)
+def d6(cx: Cx, ob: Ob) -> None:
+    fn = cx.fn(f"{RECON}._order_curie_remapping", ob.id)
+    s = cx.summary(fn, ob.id)
+    rm = ("param", fn.params[1].name)
+    raised = set()
+    for o, ctx in s.outcomes():
+        if o is not None and o[0] == "raise" and op(o[1]) == "call" and op(o[1][1]) == "cls":
+            raised.add(o[1][1][1].rsplit(".", 1)[-1])
+    for cls in ("DuplicateKeys", "DuplicateValues", "InconsistentMapping", "CycleDetected"):
+        if cls in raised:
+            ob.site(f"{fn.where} {fn.qualname}", f"raises {cls}")
+        else:
+            ob.violate(fn.qualname, fn.where, f"_order_curie_remapping never raises {cls}", detail=f"no-raise:{cls}")
+
+    def strip_order(t):
+        while op(t) == "call" and t[1] in (("builtin", "sorted"), ("builtin", "list"), ("builtin", "tuple")) and t[2]:
+            t = t[2][0]
+        return t
+
+    items = ("call", ("attr", rm, "items"), (), ())
+    builders = []
+    for t, ctx in s.returns():
+        line = ctx.path.out[2]
+        if strip_order(t) == items:
+            ob.site(f"{where(fn, line)} {fn.qualname}", "return the items (no chains)")
+            continue
+        if op(t) == "new" and t[1] == "list":
+            builders.append((t, line))
+            continue
+        inner = [x for x in subterms(t) if op(x) == "new" and x[1] == "list"]
+        if inner and op(t) == "call" and t[1] in (("builtin", "sorted"), ("builtin", "reversed")):
+            ob.violate(
+                fn.qualname,
+                where(fn, line),
+                f"the peeled layers are re-ordered on return (`{show(t)[:60]}`): within a chain a->b->c the pair b->c must be applied before a->b, a global sort does not keep that",
+                witness="{'a': 'b', 'b': 'c', 'c': 'd'}: layers are (c,d), (b,c), (a,b); any sort by (flag, pair) yields (a,b) before (b,c)",
+                detail="resorted",
+            )
+            builders.append((inner[0], line))
+            continue
+        ob.undecide(f"_order_curie_remapping returns `{show(t)[:60]}`")
+    for bt, line in builders:
+        muts = [(ev, ctx) for ev, ctx in s.mutations_of(bt)]
+        if not muts:
+            ob.undecide("the ordering list is never filled")
+        for ev, ctx in muts:
+            c = ev.a
+            if ev.kind != "expr" or op(c) != "call" or callee_name(c) not in ("extend", "append"):
+                ob.undecide(f"ordering list changed by `{show(c)[:50]}`")
+                continue
+            if not any(g.kind in ("while", "loop") for g in ctx.loops):
+                ob.undecide("ordering list is filled outside a loop")
+                continue
+            arg = strip_order(c[2][0]) if c[2] else None
+            if op(arg) != "comp" or len(arg[3]) != 1:
+                ob.undecide(f"layer `{show(arg)[:60]}` is not a comprehension over the remaining pairs")
+                continue
+            tgt, it, ifs = arg[3][0]
+            okshape = op(tgt) == "tuple" and len(tgt[1]) == 2 and op(it) == "call" and callee_name(it) == "items" and len(ifs) == 1
+            if not okshape:
+                ob.undecide("layer comprehension not of the form `for k, v in d.items() if <test>`")
+                continue
+            k, v = tgt[1]
+            d = it[1][1]
+            test = ifs[0]
+            ob.site(f"{where(fn, ev.line)} {fn.qualname}", f"layer: pairs with {show(test)[:60]}")
+            no_out = [
+                ("call", ("attr", ("call", ("builtin", "set"), (("call", ("attr", d, "values"), (), ()),), ()), "difference"), (d,), ()),
+                ("bin", "-", ("call", ("builtin", "set"), (("call", ("attr", d, "values"), (), ()),), ()), ("call", ("builtin", "set"), (d,), ())),
+                ("bin", "-", ("call", ("builtin", "set"), (("call", ("attr", d, "values"), (), ()),), ()), ("call", ("attr", d, "keys"), (), ())),
+            ]
+            if op(test) == "cmp" and test[1] == "in" and test[2] == v and test[3] in no_out:
+                pass
+            elif op(test) == "cmp" and test[1] == "not in" and test[2] == v and test[3] in (d, ("call", ("attr", d, "keys"), (), ())):
+                pass
+            elif op(test) == "cmp" and test[1] in ("in", "not in") and test[2] == k:
+                ob.violate(fn.qualname, where(fn, ev.line), f"a layer selects pairs by their OLD prefix (`{show(test)[:50]}`): the chain is peeled from the wrong end", detail="layer-by-key")
+            else:
+                ob.undecide(f"layer test `{show(test)[:60]}` not recognised")
